@@ -65,10 +65,10 @@ Lemma narrow_var_eval fr c : forall b x q,
   evalC fr c = Some b -> narrow_var c b = Some (x, q) ->
   exists v, nth_error fr x = Some v /\ truthy v = q.
 Proof.
-  induction c; simpl; intros b y q E V; try discriminate.
+  induction c; simpl; intros pol y q E V; try discriminate.
   - inversion V; subst. destruct (nth_error fr y) as [v|]; [|discriminate]. inversion E. eauto.
   - destruct (evalC fr c) as [b0|] eqn:E0; [|discriminate]. inversion E; subst.
-    eapply IHc; eauto.
+    rewrite negb_involutive in V. eapply IHc; eauto.
 Qed.
 
 Lemma narrow_sound G fr c b : types_ok G fr -> evalC fr c = Some b -> types_ok (narrow G c b) fr.
@@ -80,8 +80,9 @@ Proof.
   unfold narrow_ty. destruct (narrow_var c b) as [[y q]|] eqn:V; auto.
   destruct (Nat.eqb y x) eqn:Ey; auto. apply Nat.eqb_eq in Ey. subst y.
   destruct (narrow_var_eval fr c b x q E V) as (v' & Hv' & Tq). rewrite Hv in Hv'. inversion Hv'; subst v'.
-  unfold has_type, truthy, non_falsy, non_truthy in *. rewrite Ht. simpl.
-  destruct q; rewrite <- Tq; destruct (falsy_tag (tag_of v)); reflexivity.
+  unfold has_type, truthy in *.
+  destruct q; unfold non_falsy, non_truthy; rewrite Ht; simpl;
+    destruct (falsy_tag (tag_of v)); simpl in *; congruence.
 Qed.
 
 (* ---------------------------------------------------------------- frames and contexts *)
@@ -151,11 +152,11 @@ End Dyn.
 Lemma types_ok_ctx0 ds fr :
   Forall2 (fun v t => has_type v t = true) fr ds -> types_ok (ctx0 ds) fr.
 Proof.
-  intros F. split. { unfold ctx0. rewrite map_length. eapply Forall2_length; eauto. }
+  intros F. split. { unfold ctx0. rewrite map_length. induction F; simpl; auto. }
   intros x ch v Hc Hv. unfold ctx0 in Hc. rewrite nth_error_map in Hc.
   destruct (nth_error ds x) as [d|] eqn:Hd; [|discriminate]. inversion Hc; subst.
   eexists _, _. split; [reflexivity|].
-  revert x Hv Hd. induction F; intros [|x] Hv Hd; simpl in *; try discriminate.
+  clear Hc. revert x Hv Hd. induction F as [|v0 t0 fr0 ds0 Hvt F IHF]; intros [|n] Hv Hd; simpl in *; try discriminate.
   - inversion Hv; inversion Hd; subst. auto.
   - eauto.
 Qed.
@@ -272,10 +273,10 @@ Proof.
       * eapply types_ok_pop; eauto.
       * intros y Hy Hny. apply F2; auto. intros Hi. apply Hny. simpl. apply in_or_app; auto.
   - (* while *)
-    pose proof C as Cw.
     destruct (chkC G c) eqn:Cc; [|discriminate].
     destruct (chk ms nclo (narrow G c true) s1) as [G1|] eqn:C1; [|discriminate].
     inversion C; subst G'. clear C.
+    assert (chk ms nclo G (SWhile c s1) = Some (pop G1)) as Cw by (simpl; rewrite Cc, C1; reflexivity).
     pose proof Hloop as Hloopw.
     simpl in Hloop. apply andb_prop in Hloop. destruct Hloop as [Hd Hl1].
     assert (subset (cond_subject c) N) as Hsc by (intros y Hy; apply Hsub; simpl; apply in_or_app; auto).
@@ -290,14 +291,13 @@ Proof.
       assert (types_ok G fr1) as Tg.
       { eapply (reestablish ds N G G1 fr fr1); eauto. intros y Hy. apply F1; auto.
         intros Hi. eapply disjointb_spec; eauto. }
-      simpl in Cw.
       pose proof (IH m (SWhile c s1) nclo G (pop G1) fr1 out1 Hm Hn Hok Hsub Hloopw Cw Tg) as P2.
       destruct (exec f p (m_clos m) (SWhile c s1) fr1 out1) as [fr2 out2| |]; simpl in P2; auto.
       destruct P2 as [T2 F2]. split; auto.
       intros y Hy Hny. simpl in *. rewrite F2, F1; auto.
     + split; auto. eapply types_ok_le; eauto.
   - (* print *)
-    destruct (chkE G e) as [te|] eqn:Ce; [|discriminate]. inversion C; subst.
+    destruct (chkE G e) as [te|] eqn:Ce; [|discriminate]. inversion C; subst G'.
     destruct (chkE_sound G fr e T te Ce) as (v & -> & Hv). split; auto.
   - (* closure call *)
     destruct (Nat.ltb k nclo) eqn:Hk; [|discriminate]. inversion C; subst G'. clear C.
